@@ -47,6 +47,7 @@ pub fn run_line(line: &str, scratch: &str) -> String {
         "lo_comp" => op_lo_comp(c),
         "lo_snps" => op_lo_snps(c),
         "lo_mid" => op_lo_mid(c),
+        "lo_derep" => op_lo_derep(c),
         "lo_out" => op_lo_out(c, scratch),
         "lo_graph" => by_width!(c, op_lo_graph),
         "buildalign" => by_width!(c, op_buildalign, scratch),
@@ -795,6 +796,24 @@ fn op_lo_mid(c: &Case) -> String {
     let seqs: Vec<String> = c.list("seqs").iter().map(|s| s.to_string()).collect();
     let (mids, last) = loh::extract_middle_bases(&seqs, c.usize("k"));
     format!("{};{}", join(&mids), if last.is_empty() { ".".to_string() } else { last })
+}
+
+/// `groups=entry:exit:totallen,...` -> kept (entry, exit) pairs and the recorded extremities
+fn op_lo_derep(c: &Case) -> String {
+    let k = c.usize("k");
+    let groups: Vec<(u128, u128, Vec<String>)> = c
+        .list("groups")
+        .iter()
+        .map(|g| {
+            let f: Vec<&str> = g.split(':').collect();
+            let len: usize = f[2].parse().unwrap();
+            (f[0].parse().unwrap(), f[1].parse().unwrap(), vec!["A".repeat(len)])
+        })
+        .collect();
+    let (kept, entries) = loh::dereplicate_indels(&groups, k);
+    let ks: Vec<String> = kept.iter().map(|(a, b)| format!("{a}:{b}")).collect();
+    let es: Vec<String> = entries.iter().map(|e| e.to_string()).collect();
+    format!("kept={} ext={}", join(&ks), join(&es))
 }
 
 fn op_lo_out(c: &Case, scratch: &str) -> String {
